@@ -1,6 +1,7 @@
 package main
 
 import (
+	"strings"
 	"bytes"
 	"crypto"
 	"crypto/x509"
@@ -158,7 +159,10 @@ func runC02(c *Ctx) {
 		// rewrites inside the blob, re-embedded
 		for _, m := range p7Mutants(si.seed, rng, 6) {
 			class, blob := m[0].(string), m[1].([]byte)
-			check("blob/"+class, rebuildWithBlobs(si.img, append([][]byte{blob}, si.blobs[1:]...)), rng.Intn(4) == 0)
+			if c.Quick() && strings.Contains(class, "+") && rng.Intn(4) != 0 {
+				continue // compound rewrites: a quarter of them in the quick tier (C04 runs them all at blob level)
+			}
+			check("blob/"+class, rebuildWithBlobs(si.img, append([][]byte{blob}, si.blobs[1:]...)), rng.Intn(c.N(12, 4)) == 0)
 		}
 		// the digest-swap forgery: change a covered byte of the image and put the new
 		// image digest into SpcIndirectDataContent (lengths are unchanged)
